@@ -199,6 +199,14 @@ Plan generate(uint64_t seed, const std::string& focus) {
             if (r.chance(0.3)) c.server_ref = "srv-" + filler(r, 4);
             int nu = (int)r.below(3); for (int i = 0; i < nu; ++i) c.user.push_back({"ck" + std::to_string(i), ufiller(r, 3 + r.below(4))});
         }
+        // a long CONNACK: its Remaining Length needs two (>= 128) or three (>= 16384) bytes, so the 5 bytes the client reads first
+        // end inside the length field or right behind it; only when the client's own Maximum Packet Size allows such a packet
+        if (r.chance(focus == "C10" || focus == "C18" || focus == "C19" ? 0.3 : 0.1)) {
+            size_t len = (size_t)r.pick<int>({100, 118, 119, 120, 121, 122, 123, 124, 125, 126, 127, 128, 200, 16370, 16380, 16390});
+            uint32_t client_limit = 65536;
+            for (auto& q : cc.connect_props) if (q.id == P_MAX_PACKET) client_limit = q.num;
+            if (len + 64 < client_limit) c.reason_string = "rs-" + ufiller(r, len);
+        }
     }
     if (hostile) { bk.hostile = true; }
     k.healed_suffix = 200 * SEC;
